@@ -460,4 +460,8 @@ def run(ctx, chk):
              "nor allocates, releases or calls back (cbor_array_get and the other accessors of the sequence behave as the list model says for every client, also one compiled with optimisation)")
     import rules as _rde
     _rde.check_declared_effects(chk, "C12.declared-effects", prog, eff)
+    chk.rule("C12.getters", "each field accessor returns, on every path, the value of the field it stands for (resolved through the struct "
+             "types): no guard, clamp or second opinion between the stored value and the caller (size, capacity and storage of the sequences are what the containers store)")
+    import rules as _rg
+    _rg.check_field_getters(chk, "C12.getters", prog, eff, names=('cbor_array_size', 'cbor_array_allocated', 'cbor_array_handle', 'cbor_map_size', 'cbor_map_allocated', 'cbor_map_handle'))
     chk.exhaustive = True
